@@ -358,6 +358,25 @@ func codecMain(args []string) error {
 			}
 			bigCuts = false
 		}
+		// row counts around the chunk sizes decoders like to read in (4096, 8192): one-byte-per-row kinds, the last column
+		// of the block being the one whose end a cut removes
+		for ri, rows := range []int{4095, 4096, 4097, 8192} {
+			if (ri+2)%*nshard != *shard {
+				continue
+			}
+			nn := colgen.Nullable(colgen.Nothing())
+			nulls, bytesv := make([]any, rows), make([]any, rows)
+			for i := range nulls {
+				nulls[i] = nn.Zero()
+				bytesv[i] = colgen.Ints([]byte{byte(i % 251)})
+			}
+			if err := emit([]bcol{{kind: b.U8, name: "u", vals: bytesv}, {kind: nn, name: "nn", vals: nulls}}, rows, rs[0]); err != nil {
+				return err
+			}
+			if err := emit([]bcol{{kind: nn, name: "nn", vals: nulls}, {kind: b.U8, name: "u", vals: bytesv}}, rows, rs[0]); err != nil {
+				return err
+			}
+		}
 		u32 := func(i int) any { return colgen.Ints([]byte{byte(i), byte(i >> 8), byte(i >> 16), byte(i >> 24)}) }
 		for di, d := range []int{254, 255, 256, 257, 65534, 65535, 65536, 65537} {
 			if di%*nshard != *shard {
